@@ -195,6 +195,17 @@ def _inside_nested_def(root, node) -> bool:
     return False
 
 
+def _own_nodes(fn):
+    """nodes of fn, nested defs included as nodes but not entered"""
+    todo = list(ast.iter_child_nodes(fn))
+    while todo:
+        n = todo.pop()
+        yield n
+        if isinstance(n, (ast.FunctionDef, ast.AsyncFunctionDef, ast.ClassDef, ast.Lambda)):
+            continue
+        todo.extend(ast.iter_child_nodes(n))
+
+
 def _preorder(root):
     todo = [root]
     while todo:
@@ -286,6 +297,7 @@ class ModuleNormalizer:
         self.log: List[str] = []
         # qualname -> (node, class node or None)
         self.funcs: Dict[str, Tuple[ast.AST, Optional[ast.ClassDef]]] = {}
+        self._cur = None
         self._collect(tree.body, modname, None)
 
     def _collect(self, body, prefix, cls):
@@ -308,6 +320,7 @@ class ModuleNormalizer:
             for _ in range(4):
                 if not self._inline_calls(q, node, cls):
                     break
+            self._drop_unused_nested(q, node)
             self._inline_aliases(q, node)
 
     # ---- resolving a call to a new helper
@@ -315,6 +328,12 @@ class ModuleNormalizer:
         """(helper node, receiver expr or None, skip_first) for a call to a NEW function of this module"""
         f = call.func
         cprefix = q.rsplit(".", 1)[0]
+        if isinstance(f, ast.Name) and self._cur is not None:
+            for d in _own_nodes(self._cur):
+                if isinstance(d, (ast.FunctionDef, ast.AsyncFunctionDef)) and d.name == f.id and d is not self._cur:
+                    if self.is_new(f"{q}.{d.name}") and not d.decorator_list:
+                        return d, None, False
+                    return None
         if isinstance(f, ast.Name):
             hq = f"{self.mod}.{f.id}"
             if hq in self.funcs and self.is_new(hq) and self.funcs[hq][1] is None:
@@ -341,6 +360,7 @@ class ModuleNormalizer:
 
     def _inline_calls(self, q: str, node, cls) -> bool:
         changed = False
+        self._cur = node
         caller_names = _names_stored(node) | {a.arg for a in node.args.args}
         # 1. statement positions
         for parent in ast.walk(node):
@@ -448,6 +468,44 @@ class ModuleNormalizer:
         ei.visit(node)
         return changed or ei.changed
 
+    def _drop_unused_nested(self, q, node):
+        for parent in [node] + [n for n in _own_nodes(node) if not isinstance(n, (ast.FunctionDef, ast.AsyncFunctionDef, ast.ClassDef, ast.Lambda))]:
+            for field in ("body", "orelse", "finalbody"):
+                stmts = getattr(parent, field, None)
+                if not isinstance(stmts, list):
+                    continue
+                for s_ in list(stmts):
+                    if isinstance(s_, (ast.FunctionDef, ast.AsyncFunctionDef)) and s_ is not node and self.is_new(f"{q}.{s_.name}"):
+                        used = any(isinstance(n, ast.Name) and n.id == s_.name and isinstance(n.ctx, ast.Load) for n in ast.walk(node))
+                        if not used:
+                            stmts.remove(s_)
+                            if not stmts:
+                                stmts.append(ast.Pass())
+                            self.log.append(f"{q}: removed inlined nested helper {s_.name}")
+
+    def _uses_precede_stores(self, node, v: str, paths: List[str]) -> bool:
+        order = {id(n): k for k, n in enumerate(_preorder(node))}
+        parents = {}
+        for p_ in ast.walk(node):
+            for c in ast.iter_child_nodes(p_):
+                parents[id(c)] = p_
+        def loops_of(n):
+            out = []
+            x = parents.get(id(n))
+            while x is not None:
+                if isinstance(x, (ast.For, ast.While, ast.AsyncFor)):
+                    out.append(id(x))
+                x = parents.get(id(x))
+            return set(out)
+        uses = [n for n in ast.walk(node) if isinstance(n, ast.Name) and n.id == v and isinstance(n.ctx, ast.Load)]
+        stores = [n for n in ast.walk(node) if isinstance(n, ast.Attribute) and isinstance(n.ctx, (ast.Store, ast.Del)) and ast.unparse(n) in paths]
+        if not uses or not stores:
+            return True
+        first_store = min(order[id(s_)] for s_ in stores)
+        if any(order[id(u)] > first_store for u in uses):
+            return False
+        return not any(loops_of(u) & loops_of(s_) for u in uses for s_ in stores)
+
     def _bind(self, h, call, recv, skip):
         return _bind_params(h, call, recv, skip)
 
@@ -511,7 +569,8 @@ class ModuleNormalizer:
                     if any(len(stores.get(b, [])) > (0 if b in params else 1) for b in bases):
                         continue
                     txt = ast.unparse(e)
-                    if any(a == txt or txt.startswith(a + ".") or txt.startswith(a + "[") or a.startswith(txt + ".") for a in attr_stores):
+                    clash = [a for a in attr_stores if a == txt or txt.startswith(a + ".") or txt.startswith(a + "[") or a.startswith(txt + ".")]
+                    if clash and not self._uses_precede_stores(node, v, clash):
                         continue
                     # uses must come after the binding, in the same block or deeper
                     later = stmts[i + 1 :]
